@@ -11,7 +11,7 @@
 // slot), which is why clients that write right after connecting never notice.
 //
 // Found by the C16 check (scenario "core LT origin=dialT ...", signature "stale-dial-timer
-// origin=dialT connect=during-dial-call", 1 preemption: the dialing thread is descheduled between addDialer and setDeadline,
+// origin=dialT armed=after-connect", 1 preemption: the dialing thread is descheduled between addDialer and setDeadline,
 // the network completes the handshake, the poller handles EPOLLOUT and calls back, the dialing
 // thread resumes and arms the timer).
 //
@@ -29,7 +29,7 @@
 //
 // A run that does not hit the window within its budget (REPRO_SECONDS, default 60) SKIPs (it
 // proves nothing either way); a hit FAILS. Deterministic evidence is the replay file of the
-// check (bin/check C16 quick -replay replays/C16-stale-dial-timer_origin=dialT_connect=during-dial-call.json).
+// check (bin/check C16 quick -replay replays/C16-stale-dial-timer_origin=dialT_armed=after-connect.json).
 //
 // Possible repair: arm the timer before the descriptor is registered, or arm it under c.mux only
 // while c.onConnected is still pending (takeOnConnected clears that field under the same mutex).
